@@ -137,12 +137,12 @@ theorem head_dropSpaces {U : Uni} (L : CharLaws U) {r : List Char}
         have hne : c1 ≠ ' ' := by
           intro h; rw [h, L.ws_sp] at hc1; cases hc1
         have : (List.dropWhile (· == ' ') (' ' :: c1 :: r2)) = c1 :: r2 := by
-          simp [List.dropWhile_cons, hne]
+          simp [hne]
         rw [this] at hb
         simp only [List.head?_cons, Option.some.injEq] at hb
         subst hb; exact hc1
     · have : (List.dropWhile (· == ' ') (c :: r1)) = c :: r1 := by
-        simp [List.dropWhile_cons, hc]
+        simp [hc]
       rw [this] at hb
       simp only [List.head?_cons, Option.some.injEq] at hb
       subst hb
@@ -231,7 +231,7 @@ theorem inv_step {U : Uni} (L : CharLaws U) {st : CleanSt} (h : Inv U st) (ch0 :
         · intro c hc; simp only [List.mem_cons] at hc
           rcases hc with rfl | hc
           · intro hc'
-            simp only [hc', Bool.true_and, bne_iff_ne, ne_eq, Decidable.not_not, Bool.not_eq_true] at hctl
+            simp only [hc', Bool.true_and, bne_iff_ne, ne_eq, Decidable.not_not] at hctl
             simpa using hctl
           · exact h.ctl c hc
         · intro c hc; simp only [List.mem_cons] at hc
@@ -536,6 +536,16 @@ theorem flatten_take_zero_of_nil {gs : List (List Char)} {k : Nat}
       simp only [List.take_succ_cons, List.flatten_cons, List.append_eq_nil_iff] at h
       exact absurd h.1 (hne g (by simp))
 
+theorem fallback_ne_none (o : List Char) (gs : List (List Char)) (b : Bool) :
+    (if o.isEmpty = true then
+        (match gs with
+          | g :: _ => some (g, true)
+          | [] => some (o, b))
+      else some (o, b)) ≠ none := by
+  split
+  · cases gs <;> simp
+  · simp
+
 /-- everything the property needs to know about a `some` result of `normalize_text` -/
 theorem normalize_spec {U : Uni} (S : SegLaws U) {keep : Option (List Char)} {trail : Bool}
     {input : List Char} {limit : Nat} {out : List Char} {tr : Bool}
@@ -743,7 +753,7 @@ theorem cleanStep_good {U : Uni} (L : CharLaws U) (st : CleanSt) (c : Char) (res
       simp [hw, hls, hhn]
     · have hne : c ≠ ' ' := by
         intro e; rw [e, L.ws_sp] at hw; exact hw rfl
-      simp [hw, hnl, hne]
+      simp [hw, hne]
 
 theorem clean_foldl_id {U : Uni} (L : CharLaws U) (s : List Char) (st : CleanSt)
     (hf1 : st.lastNewline = true ↔ st.cleaned.head? = some '\n')
@@ -908,5 +918,217 @@ theorem bytes_take_ge {gs : List (List Char)} (hne : ∀ g ∈ gs, g ≠ []) {k 
 
 theorem take_one_flatten {g : List Char} {rest : List (List Char)} :
     ((g :: rest).take 1).flatten = g := by simp
+
+/-! ### the literal truncation loop equals the cluster-level formulation -/
+
+theorem truncateStr_prefix (a b : List Char) : truncateStr (a ++ b) (bytes a) = some a := by
+  induction a with
+  | nil => cases b <;> simp [truncateStr, bytes_nil]
+  | cons c r ih =>
+    have hp := Char.utf8Size_pos c
+    rw [List.cons_append, bytes_cons]
+    unfold truncateStr
+    rw [if_neg (by omega), if_neg (by omega)]
+    have : c.utf8Size + bytes r - c.utf8Size = bytes r := by omega
+    rw [this, ih]; rfl
+
+theorem dropEnd_cons {α} (p : α → Bool) (x : α) (l : List α) :
+    ((x :: l).reverse.dropWhile p).reverse =
+      if (l.reverse.dropWhile p).reverse = [] then (if p x then [] else [x])
+      else x :: (l.reverse.dropWhile p).reverse := by
+  rw [List.reverse_cons, List.dropWhile_append]
+  by_cases h : (l.reverse.dropWhile p) = []
+  · simp [h, List.dropWhile_cons]
+    split <;> simp
+  · simp [h]
+
+theorem truncLoop_eq (U : Uni) (trail : Bool) (L : Nat) (gs : List (List Char)) :
+    ∀ (out : List Char) (consumed keep : Nat),
+    truncLoop U trail L gs out consumed keep =
+      (out ++ (takeFit L gs consumed).1.flatten,
+       if trail = true ∧ dropTrailWs U (takeFit L gs consumed).1 ≠ [] then
+         consumed + bytes (dropTrailWs U (takeFit L gs consumed).1).flatten
+       else keep,
+       (takeFit L gs consumed).2) := by
+  induction gs with
+  | nil => intro out consumed keep; simp [truncLoop, takeFit, dropTrailWs]
+  | cons g rest ih =>
+    intro out consumed keep
+    unfold truncLoop takeFit
+    simp only
+    split
+    · simp [dropTrailWs]
+    · rw [ih]
+      simp only [List.flatten_cons, List.append_assoc, Prod.mk.injEq, true_and, and_true]
+      unfold dropTrailWs
+      rw [dropEnd_cons]
+      by_cases hd : ((takeFit L rest (consumed + bytes g)).1.reverse.dropWhile (endsWs U)).reverse = []
+      · rw [hd]
+        simp only [ne_eq, not_true_eq_false, and_false, if_false, if_true]
+        cases trail <;> cases hg : endsWs U g <;> simp <;> simp [bytes, List.flatten]
+      · simp only [hd, if_false, ne_eq, not_false_eq_true, and_true, List.flatten_cons, bytes_append,
+          reduceCtorEq]
+        cases trail <;> simp; omega
+
+theorem normalizeLit_eq (keep : Option (List Char)) (trail : Bool) (U : Uni) (input : List Char) (limit : Nat) :
+    normalizeLit keep trail U input limit = some (normalizeCfg keep trail U input limit) := by
+  unfold normalizeLit normalizeCfg
+  simp only
+  split
+  · rfl
+  · generalize U.graphemes (cleanedText keep U input) = gs
+    generalize max limit MIN_LIMIT = L
+    rw [truncLoop_eq]
+    simp only [List.nil_append, Nat.zero_add]
+    by_cases hc : (trail && (takeFit L gs 0).2) = true
+    · simp only [hc, if_true]
+      have htrail : trail = true := by
+        cases trail <;> simp_all
+      have hk : (if trail = true ∧ dropTrailWs U (takeFit L gs 0).1 ≠ []
+            then bytes (dropTrailWs U (takeFit L gs 0).1).flatten else 0) =
+          bytes (dropTrailWs U (takeFit L gs 0).1).flatten := by
+        split
+        · rfl
+        · rename_i hn
+          simp only [htrail, true_and, ne_eq, Decidable.not_not] at hn
+          rw [hn]; rfl
+      rw [hk]
+      obtain ⟨z, hz⟩ := dropTrailWs_prefix U (takeFit L gs 0).1
+      have : (takeFit L gs 0).1.flatten = (dropTrailWs U (takeFit L gs 0).1).flatten ++ z.flatten := by
+        rw [← List.flatten_append, hz]
+      rw [this, truncateStr_prefix]
+      simp only
+      by_cases he : (dropTrailWs U (takeFit L gs 0).1).flatten.isEmpty = true <;> cases gs <;> simp [he]
+    · simp only [hc]
+      simp only [Bool.false_eq_true, if_false]
+      by_cases he : (takeFit L gs 0).1.flatten.isEmpty = true <;> cases gs <;> simp [he]
+
+
+/-! ### where a truncated output was cut -/
+
+
+theorem mem_takeWhile_p {α} {p : α → Bool} {l : List α} {x : α} (h : x ∈ l.takeWhile p) : p x = true := by
+  induction l with
+  | nil => simp at h
+  | cons y r ih =>
+    rw [List.takeWhile_cons] at h
+    split at h
+    · rename_i hy
+      simp only [List.mem_cons] at h
+      rcases h with rfl | h
+      · exact hy
+      · exact ih h
+    · simp at h
+
+theorem dropEnd_split {α} (p : α → Bool) (l : List α) :
+    ∃ z, l = (l.reverse.dropWhile p).reverse ++ z ∧ ∀ x ∈ z, p x = true := by
+  refine ⟨(l.reverse.takeWhile p).reverse, ?_, ?_⟩
+  · rw [← List.reverse_append, List.takeWhile_append_dropWhile, List.reverse_reverse]
+  · intro x hx
+    rw [List.mem_reverse] at hx
+    exact mem_takeWhile_p hx
+
+theorem flatten_nil_of_ne {a : List (List Char)} (hne : ∀ g ∈ a, g ≠ []) (h : a.flatten = []) : a = [] := by
+  cases a with
+  | nil => rfl
+  | cons g r =>
+    simp only [List.flatten_cons, List.append_eq_nil_iff] at h
+    exact absurd h.1 (hne g (by simp))
+
+/-- where a truncated output was cut -/
+theorem normalize_cut_spec {U : Uni} (S : SegLaws U) {keep : Option (List Char)} {trail : Bool}
+    {input : List Char} {limit : Nat} {out : List Char}
+    (h : normalizeCfg keep trail U input limit = some (out, true)) :
+    ∃ (a z : List (List Char)) (g : List Char) (rest : List (List Char)),
+      U.graphemes (cleanedText keep U input) = a ++ z ++ g :: rest ∧
+      bytes (a ++ z).flatten ≤ max limit MIN_LIMIT ∧
+      max limit MIN_LIMIT < bytes (a ++ z).flatten + bytes g ∧
+      (∀ x ∈ z, endsWs U x = true) ∧ (trail = false → z = []) ∧
+      (∀ x, a.getLast? = some x → trail = true → endsWs U x = false) ∧
+      ((a ≠ [] ∧ out = a.flatten) ∨
+        (a = [] ∧ ∃ r', U.graphemes (cleanedText keep U input) = out :: r')) := by
+  unfold normalizeCfg at h
+  simp only at h
+  generalize cleanedText keep U input = t at h ⊢
+  generalize max limit MIN_LIMIT = L at h ⊢
+  split at h
+  · cases h
+  · have hgne := S.ne t
+    generalize U.graphemes t = gs at h hgne ⊢
+    obtain ⟨k0, hk0, h1, h2, h3, h4⟩ := takeFit_spec L gs 0
+    -- the flag is true in every branch that returns `true`
+    have hr2 : (takeFit L gs 0).2 = true := by
+      cases hb : (takeFit L gs 0).2 with
+      | true => rfl
+      | false =>
+        exfalso
+        rw [hb] at h
+        simp only [Bool.and_false, Bool.false_eq_true, if_false] at h
+        have hk := h3 hb
+        rw [h1, hk, List.take_length] at h
+        split at h
+        · rename_i he
+          cases gs with
+          | nil => simp at h
+          | cons g r =>
+            simp only [List.flatten_cons, List.isEmpty_iff, List.append_eq_nil_iff] at he
+            exact hgne g (by simp) he.1
+        · simp at h
+    obtain ⟨hlt, hover⟩ := h4 hr2
+    have hfit := h2 (Nat.zero_le _)
+    rw [Nat.zero_add] at hfit hover
+    -- the first cluster that does not fit
+    have hsplit : gs = gs.take k0 ++ gs[k0] :: gs.drop (k0 + 1) := by
+      conv => lhs; rw [← List.take_append_drop k0 gs, List.drop_eq_getElem_cons hlt]
+    have hover' : L < bytes (gs.take k0).flatten + bytes gs[k0] := by
+      have : gs.take (k0 + 1) = gs.take k0 ++ [gs[k0]] := by
+        rw [List.take_add_one, List.getElem?_eq_getElem hlt]; rfl
+      rw [this, List.flatten_append, bytes_append] at hover
+      simpa using hover
+    rw [hr2, h1] at h
+    simp only [Bool.and_true] at h
+    cases trail with
+    | false =>
+      simp only [Bool.false_eq_true, if_false] at h
+      refine ⟨gs.take k0, [], gs[k0], gs.drop (k0 + 1), by simpa using hsplit, by simpa using hfit,
+        by simpa using hover', by simp, fun _ => rfl, (fun _ _ ht => by cases ht), ?_⟩
+      split at h
+      · rename_i he
+        have ha : gs.take k0 = [] :=
+          flatten_nil_of_ne (fun g hg => hgne g (List.take_subset _ _ hg)) (by simpa using he)
+        right
+        refine ⟨ha, ?_⟩
+        cases gs with
+        | nil => simp at hlt
+        | cons g r => simp at h; exact ⟨r, by rw [h]⟩
+      · rename_i he
+        left
+        simp only [Option.some.injEq, Prod.mk.injEq, and_true] at h
+        refine ⟨?_, h.symm⟩
+        intro e; apply he; simp [e]
+    | true =>
+      simp only [if_true] at h
+      obtain ⟨z, hz, hzall⟩ := dropEnd_split (endsWs U) (gs.take k0)
+      refine ⟨dropTrailWs U (gs.take k0), z, gs[k0], gs.drop (k0 + 1), ?_, ?_, ?_, hzall, (fun ht => by cases ht),
+        (fun x hx _ => dropTrailWs_last hx), ?_⟩
+      · unfold dropTrailWs; rw [← hz]; exact hsplit
+      · unfold dropTrailWs; rw [← hz]; exact hfit
+      · unfold dropTrailWs; rw [← hz]; exact hover'
+      · split at h
+        · rename_i he
+          have ha : dropTrailWs U (gs.take k0) = [] :=
+            flatten_nil_of_ne (fun g hg => hgne g (List.take_subset _ _ ((dropTrailWs_prefix U _).subset hg)))
+              (by simpa using he)
+          right
+          refine ⟨ha, ?_⟩
+          cases gs with
+          | nil => simp at hlt
+          | cons g r => simp at h; exact ⟨r, by rw [h]⟩
+        · rename_i he
+          left
+          simp only [Option.some.injEq, Prod.mk.injEq, and_true] at h
+          refine ⟨?_, h.symm⟩
+          intro e; apply he; simp [e]
+
 
 end Mv.Text
